@@ -156,6 +156,10 @@ def elem_info(E, g: G):
     """(max derivative order usable without producing zero, is quadrature/real element)"""
     k = E[0]
     if k == "el":
+        if E[1] == "iso":
+            # basix 0.11 tabulates garbage for derivatives of macro (iso) elements (interval: d/dX of the mid-node hat is
+            # 3 on one half and 5.5e19 on the other), so derivatives of these elements are outside the trusted base
+            return 0, False
         return int(E[2]), False
     if k in ("real",):
         return 0, True
@@ -355,7 +359,7 @@ def gen_scalar(g: G, m, depth):
         return ["pow", ["add", ["lit", 1.5], _sq(g, a)], ["lit", g.pick([0.5, 1.5, -0.5, 2.5])]]
     if kind == "maxmin":
         if g.complex:
-            return ["abs", a]
+            return a if a[0] == "abs" else ["abs", a]
         b = gen_scalar(g, m, depth - 1)
         op = g.pick(["max", "min"])
         g.features.add("op:" + op)
@@ -386,6 +390,8 @@ def gen_scalar(g: G, m, depth):
     g.features.add("fun:" + f)
     if f in ("besselJ_s", "besselY_s"):
         return ["bessel_J" if f == "besselJ_s" else "bessel_Y", ["lit", g.int(0, 2)], ["add", ["lit", 1.5], ["tanh", a]]]
+    if f == "abs" and a[0] == "abs":
+        return a  # UFL 2026.1 turns abs(abs(x)) into an Abs node that is its own operand (infinite recursion): not expressible
     if f in ("sin", "cos", "tanh", "atan", "abs", "erf", "conj", "real", "imag"):
         if f == "tanh" and g.complex:
             return ["tanh", ["real", a]]
